@@ -16,8 +16,9 @@ Raw deck function — one `Kravatte` object:
   vatte <bits> <flags>              Vatte(out, bits, flags)              -> out | err
   kravatte <flags> <outlen> <in>    Kravatte(in, out, flags)             -> out | err
   dump <k|r|x|y|q|o>                (hook) internal state                -> bytes
-  want <hex>                        (vector replay) the model repeats its previous output; the
-                                    harness prints <hex>, the published value
+Vector replay: an operation may carry a last word `=<value>`, the value published in
+`kravatte/testdata`; the model ignores it, the harness answers `<own output> !vector` when the real
+code's output differs from it (so a deviation of either side from the vector shows in the diff).
 -/
 namespace Driver.C12
 open Sanse Kravatte
@@ -27,7 +28,6 @@ structure DS where
   b : Option (Sanse.St Kv) := none
   kv : Option Kv := none
   lastCt : List UInt8 := []
-  last : String := ""
 
 def f6 := Keccak.f6
 
@@ -116,12 +116,7 @@ def stepOp (s : DS) : List String → DS × String
     | none => (s, "bad-op")
   | _ => (s, "bad-op")
 
-def stepLine (s : DS) (ws : List String) : DS × String :=
-  match ws with
-  | ["want", _] => (s, s.last)
-  | _ =>
-    let r := stepOp s ws
-    if r.2 = "bad-op" then r else ({ r.1 with last := r.2 }, r.2)
+def stepLine (s : DS) (ws : List String) : DS × String := stepOp s (stripExpect ws)
 
 def main (_ : List String) : IO Unit := loopLines stepLine {}
 
